@@ -699,9 +699,32 @@ func vC09Identifiers(c *vCtx, limit int) {
 		return
 	}
 	src := h.snap.Files()
+	// every N in 1..limit, then the neighbourhoods of the powers of ten up to 10^15 (file
+	// names carry at least six digits: seven and more must keep working) and of 2^16,
+	// 2^31, 2^32, 2^53, 2^62
+	ns := make([]int, 0, limit+80)
 	for n := 1; n <= limit; n++ {
-		if n%64 == 0 && c.Expired() {
-			c.Bound = fmt.Sprintf("identifiers 1..%d", n-1)
+		ns = append(ns, n)
+	}
+	p10 := 10000
+	for k := 4; k <= 15; k++ {
+		for d := -2; d <= 1; d++ {
+			if p10+d > limit {
+				ns = append(ns, p10+d)
+			}
+		}
+		p10 *= 10
+	}
+	for _, k := range []uint{16, 31, 32, 53, 62} {
+		for d := -2; d <= 1; d++ {
+			if v := (1 << k) + d; v > limit {
+				ns = append(ns, v)
+			}
+		}
+	}
+	for ni, n := range ns {
+		if ni%64 == 0 && c.Expired() {
+			c.Bound = fmt.Sprintf("identifiers: %d of %d values (deadline)", ni, len(ns))
 			return
 		}
 		img := vos.NewMemFS()
@@ -725,6 +748,17 @@ func vC09Identifiers(c *vCtx, limit int) {
 			if err != nil || env.dead != "" {
 				c.Violation("reopen-failed", "", cfgS, hist, fmt.Sprint(err, env.dead))
 				break
+			}
+			if sess == 0 {
+				// the documents of the segment that was found in the directory are served
+				var got map[uint32]float64
+				var serr error
+				env.do(func() { got, serr = vStoreSearch(st, 0) })
+				for _, id := range h.durable {
+					if _, ok := got[id]; !ok && env.dead == "" {
+						c.Violation("durable-doc-lost", "segment-identifier", cfgS, hist, fmt.Sprintf("document %d of the segment found in the directory is not returned (%v, err %v)", id, vIDSet(got), serr))
+					}
+				}
 			}
 			logStart := len(env.fs.Log)
 			env.do(func() {
@@ -769,7 +803,7 @@ func vC09Identifiers(c *vCtx, limit int) {
 		c.Nontrivial(fmt.Sprintf("%s|%d", cfgS, n))
 	}
 	c.Sample("segments [10 7] on disk; open; AddWithID; Flush; Close; open; AddWithID; Flush => identifiers 11, 12")
-	c.Bound = fmt.Sprintf("identifiers 1..%d", limit)
+	c.Bound = fmt.Sprintf("identifiers 1..%d and the neighbourhoods of 10^4..10^15, 2^16, 2^31, 2^32, 2^53, 2^62", limit)
 }
 
 func vStoreReplay(c *vCtx, v *vViolation) bool {
